@@ -229,6 +229,88 @@ def memo_value_mutations(model, f, container):
     return out
 
 
+CACHE_DECORATORS = ("lru_cache", "functools.lru_cache", "cache", "functools.cache")
+
+
+def decorator_cached(model, mods):
+    """Functions of the given modules wrapped in functools.lru_cache / cache (with or without arguments)."""
+    out = []
+    for mn in mods:
+        mod = model.mod(mn)
+        funcs = list(mod.funcs.values()) + [f for c in mod.classes.values() for f in c.methods.values()]
+        for f in funcs:
+            for d in getattr(f.node, "decorator_list", []):
+                t = norm(d.func) if isinstance(d, ast.Call) else norm(d)
+                if t in CACHE_DECORATORS:
+                    out.append(f)
+    return out
+
+
+def _returns_mutable(model, g, depth=0):
+    env = {}
+    for s in ast.walk(g.node):
+        if isinstance(s, ast.Assign) and len(s.targets) == 1 and isinstance(s.targets[0], ast.Name):
+            env.setdefault(s.targets[0].id, []).append(s.value)
+
+    def mut(e, seen):
+        if isinstance(e, (ast.List, ast.Dict, ast.Set, ast.ListComp, ast.DictComp, ast.SetComp)):
+            return True
+        if isinstance(e, ast.Tuple):
+            return any(mut(x, seen) for x in e.elts)
+        if isinstance(e, ast.Call):
+            d = norm(e.func)
+            if d.startswith(("np.", "numpy.", "sps.", "scipy.")) and d.split(".")[-1] not in ("sum", "prod", "max", "min", "dot", "float32", "float64", "int32", "int64", "sqrt", "floor", "ceil"):
+                return True
+            return bool(_mutable_result(model, g, e, depth + 1))
+        if isinstance(e, ast.BinOp):
+            return mut(e.left, seen) or mut(e.right, seen)
+        if isinstance(e, ast.Name) and e.id in env and e.id not in seen:
+            return any(mut(v, seen | {e.id}) for v in env[e.id])
+        return False
+    return any(mut(r.value, set()) for r in ast.walk(g.node) if isinstance(r, ast.Return) and r.value is not None)
+
+
+def cached_result_mutations(model, g):
+    """In-place modifications, anywhere in the package, of a value obtained from a call of the decorator-cached function g."""
+    out = []
+    for f in model.all_funcs():
+        tainted = {}
+        for s in ast.walk(f.node):
+            if isinstance(s, ast.Assign) and isinstance(s.value, ast.Call):
+                try:
+                    t = model.resolve_call(s.value, f)
+                except Exception:
+                    t = None
+                if t is not None and getattr(t, "node", None) is g.node:
+                    for tg in s.targets:
+                        for x in ast.walk(tg):
+                            if isinstance(x, ast.Name) and isinstance(x.ctx, ast.Store):
+                                tainted[x.id] = s
+        if not tainted:
+            continue
+        for s in ast.walk(f.node):
+            b = None
+            if isinstance(s, ast.AugAssign):
+                b = s.target
+            elif isinstance(s, ast.Assign) and any(isinstance(t, (ast.Subscript, ast.Attribute)) for t in s.targets):
+                b = next(t for t in s.targets if isinstance(t, (ast.Subscript, ast.Attribute)))
+            elif isinstance(s, ast.Call) and isinstance(s.func, ast.Attribute) and s.func.attr in MUTATORS:
+                b = s.func.value
+            else:
+                continue
+            while isinstance(b, (ast.Subscript, ast.Attribute)):
+                b = b.value
+            if isinstance(b, ast.Name) and b.id in tainted:
+                # a rebinding `x = x / s` between the call and the update would make it a fresh object: AugAssign on a name bound
+                # only by the call is the in-place case
+                rebinds = [a for a in ast.walk(f.node) if isinstance(a, ast.Assign) and a is not tainted[b.id]
+                           and any(isinstance(x, ast.Name) and x.id == b.id and isinstance(x.ctx, ast.Store) for t in a.targets for x in ast.walk(t))
+                           and tainted[b.id].lineno < a.lineno < s.lineno]
+                if not rebinds:
+                    out.append((f, s, norm(s)))
+    return out
+
+
 def rule_shared_state(ctx, R, modules, what):
     ctx.rule(R, "no function of the anchored modules writes into a module-level or class-level mutable container (a cache there outlives the "
              "call and the object: results would depend on earlier calls / other instances, whatever key is used)")
@@ -256,6 +338,15 @@ def rule_shared_state(ctx, R, modules, what):
         missing = sorted(vd - kd)
         ctx.ob(R, f.qname, f"no write into process-wide state ({desc.split(' is ')[0]})", False,
                f"{desc}; the stored value also depends on {missing[:6]}, which the key {sorted(kd)} does not cover; {what}", node)
+    # functools caches: the object returned to the first caller is the object every later caller gets
+    for g in decorator_cached(ctx.model, mods):
+        if not _returns_mutable(ctx.model, g):
+            ctx.note(f"{R}: {g.short} is wrapped in a functools cache and returns immutable values")
+            continue
+        muts = cached_result_mutations(ctx.model, g)
+        ctx.ob(R, g.qname, f"values handed out by the functools cache around {g.short} are not modified in place by any caller", not muts,
+               "; ".join(f"{f.short}: `{t[:60]}`" for f, _, t in muts[:3]) + f" -- the cached arrays are shared with every later call of {g.short}: its result depends on earlier calls; {what}",
+               muts[0][1] if muts else g.node, evidence=True)
     ctx.ob(R, "darsia", f"{len(mods)} module(s), {n_funcs} function(s) scanned for writes into module-/class-level containers", True, "", None)
 
 
